@@ -49,7 +49,154 @@ pub fn run(rng: &mut Rng, n: usize, rep: &mut Report) {
     crate::mon_c18::migrate_block(rng, (n / 40).max(6), rep, true);
     metadata_block(rng, (n / 60).max(3), rep);
     foreign_group_block(rng, (n / 60).max(3), rep);
+    genesis_block(rng, (n / 60).max(3), rep);
     run_with(rng, n, rep, &mut None)
+}
+
+/// Where every role starts: the REAL init_global_fee_state and marginfi_group_initialize through dispatch on an empty world
+/// (accounts really `init`ed through the System Program stub). The fee state names exactly the admin and wallet given; a new
+/// group has exactly one role holder - the admin who signed - and no delegate at all, program fees on, no bank, no pause, the
+/// fee cache a copy of the fee state; neither can be initialised twice, a group cannot be bound to a look-alike fee state,
+/// and in the new group a stranger can configure nothing while the admin can.
+fn genesis_block(rng: &mut Rng, rounds: usize, rep: &mut Report) {
+    use anchor_lang::{InstructionData, ToAccountMetas};
+    use marginfi_type_crate::types::{FeeState, MarginfiGroup};
+    use solana_program::instruction::Instruction;
+    for _ in 0..rounds {
+        crate::world::install_stubs();
+        let mut w = crate::world::World::new();
+        w.set_clock(1_700_000_000 + rng.range(0, 1_000_000), 1000);
+        let payer = w.add_wallet(100_000_000_000);
+        let fee_admin = w.add_wallet(1_000_000_000);
+        let fee_wallet = w.add_wallet(0);
+        let stranger = w.add_wallet(10_000_000_000);
+        let (fs_key, fs_bump) = crate::world::fixtures::fee_state_pda();
+        let (flat, liq_flat) = (rng.below(1_000_000) as u32, rng.below(1_000_000) as u32);
+        let (pf, pr, lm) = (I80F48::from_bits(rng.below(1 << 46) as i128), I80F48::from_bits(rng.below(1 << 46) as i128), I80F48::from_bits(rng.below(1 << 47) as i128));
+        let init_fs = |fee_state: Pubkey| Instruction {
+            program_id: marginfi::ID,
+            accounts: marginfi::accounts::InitFeeState { payer, fee_state, system_program: solana_program::system_program::ID }.to_account_metas(None),
+            data: marginfi::instruction::InitGlobalFeeState {
+                admin: fee_admin, fee_wallet, bank_init_flat_sol_fee: flat, liquidation_flat_sol_fee: liq_flat,
+                program_fee_fixed: pf.into(), program_fee_rate: pr.into(), liquidation_max_fee: lm.into(),
+            }.data(),
+        };
+        rep.bump("cases");
+        rep.bump("genesis_rounds");
+        // a fee state anywhere but at the PDA is refused
+        {
+            let other = w.new_key();
+            let before = w.accounts.clone();
+            if w.exec(&init_fs(other)).is_ok() { rep.fail("C08 init_global_fee_state created a fee state at an address that is not the program's PDA".to_string()); }
+            else if w.accounts != before { rep.fail("C08 a refused init_global_fee_state changed the store".to_string()); }
+        }
+        if let Err(e) = w.exec(&init_fs(fs_key)) {
+            rep.fail(format!("C12 init_global_fee_state refused on an empty world: {}", e));
+            continue;
+        }
+        let fs = w.fee_state(&fs_key);
+        let mut expect: FeeState = bytemuck::Zeroable::zeroed();
+        expect.key = fs_key;
+        expect.global_fee_admin = fee_admin;
+        expect.global_fee_wallet = fee_wallet;
+        expect.bank_init_flat_sol_fee = flat;
+        expect.liquidation_flat_sol_fee = liq_flat;
+        expect.bump_seed = fs_bump;
+        expect.program_fee_fixed = pf.into();
+        expect.program_fee_rate = pr.into();
+        expect.liquidation_max_fee = lm.into();
+        if bytemuck::bytes_of(&fs) != bytemuck::bytes_of(&expect) {
+            rep.fail(format!("C12 the fee state created by init_global_fee_state is not exactly what was asked for: admin ok {}, wallet ok {}, key ok {}, bump ok {}, fees ok {}, pause flags {}",
+                fs.global_fee_admin == fee_admin, fs.global_fee_wallet == fee_wallet, fs.key == fs_key, fs.bump_seed == fs_bump,
+                fs.bank_init_flat_sol_fee == flat && fs.liquidation_flat_sol_fee == liq_flat, fs.panic_state.pause_flags));
+        }
+        // once only: whoever calls it again (the stranger, with himself as the admin) is refused
+        {
+            let before = w.accounts.clone();
+            let again = Instruction {
+                program_id: marginfi::ID,
+                accounts: marginfi::accounts::InitFeeState { payer: stranger, fee_state: fs_key, system_program: solana_program::system_program::ID }.to_account_metas(None),
+                data: marginfi::instruction::InitGlobalFeeState { admin: stranger, fee_wallet: stranger, bank_init_flat_sol_fee: 0, liquidation_flat_sol_fee: 0,
+                    program_fee_fixed: I80F48::ZERO.into(), program_fee_rate: I80F48::ZERO.into(), liquidation_max_fee: I80F48::ZERO.into() }.data(),
+            };
+            if w.exec(&again).is_ok() { rep.fail("C08 init_global_fee_state succeeded a second time: a stranger replaced the global fee admin and wallet".to_string()); }
+            else if w.accounts != before { rep.fail("C08 a refused second init_global_fee_state changed the store".to_string()); }
+        }
+        // ---- a group
+        let admin = w.add_wallet(10_000_000_000);
+        let gkey = w.new_key();
+        let init_group = |marginfi_group: Pubkey, admin: Pubkey, fee_state: Pubkey| Instruction {
+            program_id: marginfi::ID,
+            accounts: marginfi::accounts::MarginfiGroupInitialize { marginfi_group, admin, fee_state, system_program: solana_program::system_program::ID }.to_account_metas(None),
+            data: marginfi::instruction::MarginfiGroupInitialize {}.data(),
+        };
+        // bound to a look-alike fee state (same bytes, another address): refused
+        {
+            let fake = w.new_key();
+            let a = w.get(&fs_key).unwrap().clone();
+            w.accounts.insert(fake, a);
+            let before = w.accounts.clone();
+            if w.exec(&init_group(gkey, admin, fake)).is_ok() { rep.fail("C08 marginfi_group_initialize accepted a look-alike fee state that is not the program's PDA".to_string()); }
+            else if w.accounts != before { rep.fail("C08 a refused marginfi_group_initialize changed the store".to_string()); }
+            w.accounts.remove(&fake);
+        }
+        // the admin must sign
+        {
+            let mut ixn = init_group(gkey, admin, fs_key);
+            for m in ixn.accounts.iter_mut() { if m.pubkey == admin { m.is_signer = false; } }
+            let before = w.accounts.clone();
+            if w.exec(&ixn).is_ok() { rep.fail("C08 marginfi_group_initialize made a key the admin of a new group without its signature".to_string()); }
+            else if w.accounts != before { rep.fail("C08 a refused marginfi_group_initialize changed the store".to_string()); }
+        }
+        let now = w.clock_ts;
+        if let Err(e) = w.exec(&init_group(gkey, admin, fs_key)) {
+            rep.fail(format!("C12 marginfi_group_initialize refused for a plain new group: {}", e));
+            continue;
+        }
+        let g = w.group(&gkey);
+        let mut eg: MarginfiGroup = bytemuck::Zeroable::zeroed();
+        eg.admin = admin;
+        eg.group_flags = 1; // PROGRAM_FEES_ENABLED
+        eg.fee_state_cache.global_fee_wallet = fee_wallet;
+        eg.fee_state_cache.program_fee_fixed = pf.into();
+        eg.fee_state_cache.program_fee_rate = pr.into();
+        eg.fee_state_cache.last_update = now;
+        // the two leverage caps are the documented defaults (15x / 20x, stored as hundredths of u32::MAX); everything else is compared exactly
+        let near = |raw: u32, lev: u64| -> bool { let want = (lev as u128 * u32::MAX as u128 / 100) as i128; (raw as i128 - want).abs() <= 2 };
+        let caps_ok = near(g.emode_max_init_leverage, 15) && near(g.emode_max_maint_leverage, 20);
+        eg.emode_max_init_leverage = g.emode_max_init_leverage;
+        eg.emode_max_maint_leverage = g.emode_max_maint_leverage;
+        if bytemuck::bytes_of(&g) != bytemuck::bytes_of(&eg) || !caps_ok {
+            let line = format!("a freshly initialised group is not the empty group of its signer: admin ok {}, delegates all unset {}, flags {:#x} (expected 0x1), banks {}, fee cache ok {}, pause flags {}, leverage caps ok {}",
+                g.admin == admin,
+                [g.emode_admin, g.delegate_curve_admin, g.delegate_limit_admin, g.delegate_emissions_admin, g.risk_admin, g.metadata_admin].iter().all(|k| *k == Pubkey::default()),
+                g.group_flags, g.banks,
+                g.fee_state_cache.global_fee_wallet == fee_wallet && g.fee_state_cache.last_update == now,
+                g.panic_state_cache.pause_flags, caps_ok);
+            rep.fail(format!("C12 {}", line));
+            rep.fail(format!("C08 {}", line));
+        }
+        // once only
+        {
+            let before = w.accounts.clone();
+            if w.exec(&init_group(gkey, stranger, fs_key)).is_ok() { rep.fail("C08 marginfi_group_initialize succeeded on an existing group: a stranger became its admin".to_string()); }
+            else if w.accounts != before { rep.fail("C08 a refused marginfi_group_initialize changed the store".to_string()); }
+        }
+        // roles in the new group: a stranger configures nothing, the admin does
+        {
+            let d = Pubkey::default();
+            let before = w.accounts.clone();
+            if w.exec(&ix::group_configure(gkey, stranger, stranger, d, d, d, d, d, d, None, None)).is_ok() {
+                rep.fail("C08 a stranger re-configured a freshly initialised group".to_string());
+            } else if w.accounts != before { rep.fail("C08 a refused marginfi_group_configure changed the store".to_string()); }
+            let risk = w.add_wallet(1_000_000_000);
+            if w.exec(&ix::group_configure(gkey, admin, admin, d, d, d, d, d, risk, None, None)).is_err() {
+                rep.fail("C12 the admin of a freshly initialised group cannot configure it".to_string());
+            } else if w.group(&gkey).risk_admin != risk || w.group(&gkey).admin != admin {
+                rep.fail("C12 marginfi_group_configure on a freshly initialised group did not assign the roles named".to_string());
+            }
+        }
+    }
 }
 
 /// family `liteix`: one line per REAL lending_pool_configure_bank_interest_only / _limits_only executed by this monitor
